@@ -57,11 +57,22 @@ ASSUMPTIONS = [
 TOL = 1e-9
 TOLERANCES = {'value': TOL, 'time-label': 1e-9}
 BOUNDS = {
-    'quick': {'n_obs': [1, 5], 'n_channel': [1, 2, 3], 'fills': 1, 'combos': 4,
-              'pair_n_obs': [1, 3], 'tierA': '{0,1,2}^(n x P): (2,1..3) (3,1..2) (4,1)',
-              'movie': {'n_time': [1, 3], 'n_obs': [1, 3], 'n_channel': [1, 2, 3]}},
-    'thorough': {'n_obs': [1, 6], 'n_channel': [1, 2, 3, 4], 'fills': 3, 'combos': 8,
-                 'pair_n_obs': [1, 4], 'tierA': 'quick + (3,3) (4,2)',
+    'quick': {'n_obs': '1..5, every set partition (75); row permutations: all for n<=4, 4 for n=5',
+              'n_channel x (container,dtype,extra) slots': 8, 'n_channel': [1, 2, 3], 'fills': 1,
+              'method_configurations': 16,
+              'one_element_list': 'n_obs 1..4, all method configurations, descriptor and None',
+              'list_of_two': 'n_obs 1..3 each, every pair of partitions x {same, shifted, disjoint} names x 3 '
+                             'namings; 6 core method configurations everywhere, all 18 on every 4th structure',
+              'list_of_two_no_descriptor': 'n_obs 1..4: identical descriptors (every partition) and distinct '
+                                           'labels in every row order',
+              'tierA': '{0,1,2}^(n x P): (2,1..3) (3,1..2) (4,1), every partition, 6 method configurations',
+              'movie': {'n_time': [1, 3], 'n_obs': [1, 3], 'n_channel': [1, 2, 3],
+                        'binnings': 'none + every partition of the time points, both bin orders'}},
+    'thorough': {'n_obs': '1..6, every set partition (278); row permutations: all for n<=4, identity, '
+                          'reversal and every adjacent swap above',
+                 'n_channel': [1, 2, 3, 4], 'fills': 3, 'combos': 8, 'method_configurations': 16,
+                 'one_element_list': 'n_obs 1..5', 'list_of_two': 'n_obs 1..4 each, all 18 method configurations',
+                 'tierA': 'quick + (3,3) (4,2), 13 method configurations',
                  'movie': {'n_time': [1, 4], 'n_obs': [1, 4], 'n_channel': [1, 2, 3]}},
 }
 
@@ -718,16 +729,19 @@ def shards(tier, seed):
         total = 3 ** (n * n_ch)
         bs = 81 if total > 81 else total
         if total > 2000:
-            bs = 243
+            bs = 243 if n < 4 else 81
         for start in range(0, total, bs):
             out.append({'kind': 'values', 'n': n, 'P': n_ch, 'mats': [start, min(total, start + bs)]})
     # D: lists of two datasets with condition descriptor
     nmax = 4 if th else 3
     for n1 in range(1, nmax + 1):
         for n2 in range(1, nmax + 1):
-            for n_ch in ([1, 2, 3] if th else [2, 3]):
+            for n_ch in ([1, 2, 3] if (th and n1 + n2 <= 6) else [2, 3]):
                 for container in ('list', 'nd'):
-                    out.append({'kind': 'pair', 'n1': n1, 'n2': n2, 'P': n_ch, 'container': container})
+                    # one shard per partition of the first dataset once the product gets large
+                    for p1 in (range(combi.BELL[n1]) if combi.BELL[n1] * combi.BELL[n2] > 10 else [None]):
+                        out.append({'kind': 'pair', 'n1': n1, 'n2': n2, 'P': n_ch, 'container': container,
+                                    'p1': p1})
     # E: lists of two datasets without descriptor
     for n in range(1, 5):
         for n_ch in ([1, 2, 3] if th else [2, 3]):
@@ -738,7 +752,10 @@ def shards(tier, seed):
         for n in range(1, 5 if th else 4):
             for n_ch in (1, 2, 3):
                 for torder in (['asc', 'desc'] if nt > 1 else ['asc']):
-                    out.append({'kind': 'movie', 'nt': nt, 'n': n, 'P': n_ch, 'torder': torder})
+                    ntc = len(_time_configs(nt))
+                    for start in (range(0, ntc, 3) if nt >= 4 else [None]):
+                        out.append({'kind': 'movie', 'nt': nt, 'n': n, 'P': n_ch, 'torder': torder,
+                                    'tcs': None if start is None else [start, min(ntc, start + 3)]})
     return out
 
 
@@ -811,7 +828,11 @@ def run_shard(shard, ctx):
     elif kind == 'pair':
         mconfs = _mconfs(listnoise=True)
         idx = 0
-        for part1 in _partitions(shard['n1']):
+        parts1 = _partitions(shard['n1'])
+        if shard.get('p1') is not None:
+            parts1 = [parts1[shard['p1']]]
+            idx = 7 * shard['p1']
+        for part1 in parts1:
             for part2 in _partitions(shard['n2']):
                 for offset in ('same', 'shift', 'disjoint'):
                     for tag in ('asc', 'desc', 'str'):
@@ -851,7 +872,11 @@ def run_shard(shard, ctx):
         nt, n, n_ch = shard['nt'], shard['n'], shard['P']
         mconfs = _mconfs(rm=False)
         idx = 0
-        for bins in _time_configs(nt):
+        tcs = _time_configs(nt)
+        if shard.get('tcs') is not None:
+            tcs = tcs[shard['tcs'][0]:shard['tcs'][1]]
+            idx = 5 * shard['tcs'][0]
+        for bins in tcs:
             for part in _partitions(n):
                 for tag in ('asc', 'desc', 'str'):
                     idx += 1
